@@ -77,7 +77,7 @@ func Compare(stmts []string, opt Options) (o Outcome) {
 	}()
 	judging := true
 	for i, src := range stmts {
-		pr := impl.Parse(src, impl.DefaultLexFuel(len(src))*4+1000)
+		pr := impl.Parse(src, impl.ParseFuel(len(src)))
 		if pr.Panic != "" || pr.FuelOut != "" {
 			// the front end's totality is C06's subject; here the statement is simply not executable
 			o.Skipped = "front end failed on statement " + strconv.Itoa(i)
